@@ -36,6 +36,63 @@ pub fn check(c: &Case) -> CheckResult {
     Ok(CaseInfo::new(big && !gens::is_anchor(Ty::XorShift, &c.seed.bytes) && c.steps > 0).class(format!("seed:{}", c.seed.class)))
 }
 
+/// stream positions reached through the other output calls: next_u64 is two steps (low word
+/// first), fill_bytes(n) is ceil(n/4) steps in little-endian bytes; every next_u32 in between and
+/// the state after every call must be xor128's
+#[derive(Clone, Debug, Serialize, Deserialize)]
+pub struct MixedCase {
+    pub seed: Seed,
+    pub ops: Vec<crate::ops::Op>,
+}
+
+pub fn check_mixed(c: &MixedCase) -> CheckResult {
+    use crate::ops::Op;
+    let mut g = adapter::from_seed(Ty::XorShift, &c.seed.bytes);
+    let mut m = Xor128::from_seed(&c.seed.bytes);
+    let mut u32_after_other = false;
+    let mut last_other = false;
+    for (k, op) in c.ops.iter().enumerate() {
+        match op {
+            Op::U32 => {
+                let (got, want) = (g.next_u32(), m.next());
+                if got != want {
+                    return Err(Fail::new("C04:output", format!("next_u32 (op #{}, after {:?}) is not the new w of the xor128 step at this stream position", k, c.ops.get(k.wrapping_sub(1)))).exp_act(format!("{:#010x}", want), format!("{:#010x}", got)));
+                }
+                u32_after_other |= last_other;
+                last_other = false;
+            }
+            Op::U64 => {
+                let got = g.next_u64();
+                let lo = m.next() as u64;
+                let want = (m.next() as u64) << 32 | lo;
+                if got != want {
+                    return Err(Fail::new("C04:output-u64", format!("next_u64 (op #{}) is not two xor128 steps, low word first", k)).exp_act(format!("{:#018x}", want), format!("{:#018x}", got)));
+                }
+                last_other = true;
+            }
+            Op::Fill(n) => {
+                let got = crate::ops::fill_unaligned(&mut *g, *n);
+                let mut want = Vec::new();
+                for _ in 0..(*n + 3) / 4 {
+                    want.extend_from_slice(&m.next().to_le_bytes());
+                }
+                want.truncate(*n);
+                if got != want {
+                    return Err(Fail::new("C04:output-fill", format!("fill_bytes({}) (op #{}) is not the little-endian bytes of the next xor128 steps", n, k)).exp_act(crate::hexser::hex(&want), crate::hexser::hex(&got)));
+                }
+                last_other = true;
+            }
+            _ => {}
+        }
+        let sb = m.state_bytes();
+        let expect = adapter::from_seed(Ty::XorShift, &sb);
+        if g.eq_dyn(&*expect) != Some(true) {
+            return Err(Fail::new("C04:state", format!("state after op #{} {:?} is not (x,y,z,w) of xor128 at this stream position", k, op)).exp_act(format!("{:x?}", m), adapter::observe_state(&*g).map(|b| crate::hexser::hex(&b))));
+        }
+    }
+    Ok(CaseInfo::new(u32_after_other).class(format!("seed:{}", c.seed.class)).class_if(c.ops.iter().any(|o| matches!(o, Op::Fill(n) if n % 4 != 0)), "fill-with-partial-word"))
+}
+
 fn model_inverse() -> std::sync::Arc<crate::gf2::Matrix> {
     use crate::gf2::{Bits, Matrix};
     use std::sync::{Arc, OnceLock};
@@ -60,7 +117,7 @@ pub fn def(ctx: &Ctx) -> PropDef {
     let long = t.pick(50_000usize, 5_000_000);
     PropDef {
         id: "C04",
-        rule: "cases = non-zero 16-byte seed (uniform, sparse, dense, special words, single byte, crate test seeds) x step count {1; 2-16; 17-300; <=5000; long runs}; every next_u32 and the successor state (== from_seed(le_bytes(x,y,z,w))) are compared with Marsaglia's xor128. Non-trivial = not a crate test seed, some word >= 2^16, >=1 step; distinct by hash of (seed, steps).".into(),
+        rule: "cases = non-zero 16-byte seed (uniform, sparse, dense, special words, single byte, crate test seeds) x step count {1; 2-16; 17-300; <=5000; long runs}; every next_u32 and the successor state (== from_seed(le_bytes(x,y,z,w))) are compared with Marsaglia's xor128; mixed-calls: histories of next_u32 / next_u64 / fill_bytes(n) — the stream positions a caller can reach — with every value (next_u64 = two steps, low word first; fill = ceil(n/4) steps, little-endian) and the state after every call compared with xor128. Non-trivial = not a crate test seed, some word >= 2^16, >=1 step; distinct by hash of (seed, steps).".into(),
         explanation: None,
         assumptions: vec!["refmodel::misc::Xor128 is the xor128 step of the paper (validated against the crate's published vector and the Python model)".into()],
         subs: vec![
@@ -77,6 +134,7 @@ pub fn def(ctx: &Ctx) -> PropDef {
                     })
                     .boxed()
             }, check),
+            PSub::boxed("mixed-calls", t.pick(20_000, 2_000_000), || (gens::seed_for(Ty::XorShift, false), gens::ops(&Ty::XorShift.info(), 12, 40, false)).prop_map(|(seed, ops)| MixedCase { seed, ops }).boxed(), check_mixed),
             PSub::boxed("long", t.pick(30, 100), move || gens::seed_for(Ty::XorShift, false).prop_map(move |seed| Case { seed, steps: long }).boxed(), check),
         ],
     }
